@@ -209,6 +209,7 @@ func (h *c17Handler) take() []c17Deliv {
 // maps, and expire/remove commute on the streams map).
 type c17Env struct {
 	b       *MemoryBroker
+	wrap    *c17BrokerWrap // set when the broker is attached to a Node
 	h       *c17Handler
 	now     int64 // virtual ms since the bubble start
 	epochs  map[string]uint64
@@ -517,15 +518,47 @@ func c17GenAdvance(r *rand.Rand) int64 {
 
 // ---- a full Node on top of the recorded broker (C43 / C02 / C03 drivers) ----
 
-// c17BrokerWrap makes Node.Run register the recording handler (which forwards to the node).
+// c17BrokerWrap makes Node.Run register the recording handler (which forwards to the node) and lets a
+// driver act inside the node's own Broker.History calls (natural gate): hold the first call for a
+// channel until released, or run a hook right after the first read of a channel.
 type c17BrokerWrap struct {
 	*MemoryBroker
-	env *c17Env
+	env      *c17Env
+	mu       sync.Mutex
+	gateCh   string
+	gate     chan struct{} // the next History(gateCh) waits for this channel to be closed BEFORE reading
+	hookCh   string
+	hook     func() // runs once, right AFTER the next History(hookCh) read
+	hookRuns int
 }
 
 func (w *c17BrokerWrap) RegisterBrokerEventHandler(h BrokerEventHandler) error {
 	w.env.start(h)
 	return nil
+}
+
+func (w *c17BrokerWrap) History(ch string, opts HistoryOptions) ([]*Publication, StreamPosition, error) {
+	w.mu.Lock()
+	var g chan struct{}
+	if w.gate != nil && ch == w.gateCh {
+		g, w.gate = w.gate, nil
+	}
+	w.mu.Unlock()
+	if g != nil {
+		<-g
+	}
+	pubs, sp, err := w.MemoryBroker.History(ch, opts)
+	w.mu.Lock()
+	var f func()
+	if w.hook != nil && ch == w.hookCh {
+		f, w.hook = w.hook, nil
+		w.hookRuns++
+	}
+	w.mu.Unlock()
+	if f != nil {
+		f()
+	}
+	return pubs, sp, err
 }
 
 // c17NewNodeEnv must be called inside a synctest bubble at virtual time 0. It creates a Node whose
@@ -541,7 +574,8 @@ func c17NewNodeEnv(cfg Config, zeroMeta bool, setup func(n *Node)) (*c17Env, *No
 		n.config.HistoryMetaTTL = 0
 	}
 	e := c17NewEnv(n) // sleeps to x.700 and creates the broker
-	n.SetBroker(&c17BrokerWrap{MemoryBroker: e.b, env: e})
+	e.wrap = &c17BrokerWrap{MemoryBroker: e.b, env: e}
+	n.SetBroker(e.wrap)
 	if setup != nil {
 		setup(n)
 	}
